@@ -717,6 +717,15 @@ func Keys(g *Gen, rep Reporter) {
 	if r.Chance(30) {
 		t2 = t1.Add(time.Duration(r.Intn(3)-1) * time.Nanosecond)
 	}
+	// the same instants expressed in other time zones (a node whose local zone is not UTC, times parsed from
+	// RFC 3339 text with an offset): keys are about instants, not wall clocks
+	if r.Chance(40) {
+		t1 = t1.In(time.FixedZone("east", int(r.PickI64(3600, 9*3600, 19800, 14*3600))))
+		rep.Count("c20.keys.non_utc_times", 1)
+	}
+	if r.Chance(30) {
+		t2 = t2.In(time.FixedZone("west", -int(r.PickI64(3600, 5*3600, 12*3600))))
+	}
 	if t1.Year() < 9999 && t2.Year() < 9999 && t1.Year() >= 1970 && t2.Year() >= 1970 {
 		k1, k2 := posTypes.KeyForUnstakingValidators(t1), posTypes.KeyForUnstakingValidators(t2)
 		c := 0
